@@ -38,9 +38,12 @@ def check(run, prog, tier):
     run.rule("C12-B", "isotropic rank-four average: M4, matchings, prefactor", minimum=8)
     run.rule("C12-C", "every orientational factor is a product of two scalar products over the four vectors", minimum=6)
     run.rule("C12-D", "signal and process tables partition the pathway types", minimum=4)
+    run.rule("C12-E", "every generated pathway is a well-formed double-sided diagram and takes its line shapes from "
+                      "the coherence it is in (symbolic diagram tracking)", minimum=12)
     rule_A(run, prog)
     Fe, Fd = rule_B(run, prog)
     rule_C(run, prog, Fe, Fd)
+    rule_E(run, prog)
     m = prog.module("quantarhei.spectroscopy.twod2")
 
     class Proxy:
@@ -53,6 +56,116 @@ def check(run, prog, tier):
         def __getattr__(self, name):
             return getattr(self.run, name)
     c19.rule_A(Proxy(run), prog, m)
+
+
+def rule_E(run, prog):
+    """Tracks |ket><bra| through the calls that build a Liouville pathway in every generator of
+    builders/aggregate_spectroscopy.py:
+
+      liouville_pathway(kind, g, ...)          |g><g|
+      add_transition((to, frm), +1, ...)       ket: frm -> to      (frm must be the current ket)
+      add_transition((to, frm), -1, ...)       bra: frm -> to      (frm must be the current bra)
+      add_transfer((k2, b2), (k1, b1))         |k1><b1| -> |k2><b2| (must be the current state)
+
+    and requires (i) every step starts from the state the diagram is in, (ii) the diagram ends in a
+    population, (iii) a transition tagged interval=k, width=W, deph=D has W and D looked up for the
+    two states of the coherence present after the k-th interaction.  The cancellation of cross peaks
+    for uncoupled molecules needs each excited-state-absorption pathway to carry the line shape of the
+    coherence it shares with its ground-state counterpart; a look-up for a neighbouring index is
+    invisible unless the molecules have different widths."""
+    rid = "C12-E"
+    m = prog.module("quantarhei.builders.aggregate_spectroscopy")
+    prog.consulted.add(m.relpath)
+    npath = 0
+    allf = dict(m.functions)
+    for c_ in m.classes.values():
+        for nme, fn in c_.methods.items():
+            allf["%s.%s" % (c_.name, nme)] = fn
+    for fname, f in sorted(allf.items()):
+        calls = [n for n in ast.walk(f.node) if isinstance(n, ast.Call)]
+        ctors = sorted([c for c in calls if call_name(c) == "liouville_pathway"], key=lambda c: c.lineno)
+        if not ctors:
+            continue
+        steps = sorted([c for c in calls if isinstance(c.func, ast.Attribute) and c.func.attr in
+                        ("add_transition", "add_transfer")], key=lambda c: (c.lineno, c.col_offset))
+        lookups = {}
+        for n in ast.walk(f.node):
+            if isinstance(n, ast.Assign) and isinstance(n.targets[0], ast.Name) and isinstance(n.value, ast.Call) \
+                    and call_name(n.value) in ("get_transition_width", "get_transition_dephasing") and n.value.args:
+                a0 = n.value.args[0]
+                if isinstance(a0, ast.Tuple) and len(a0.elts) == 2:
+                    lookups.setdefault(n.targets[0].id, []).append((n.lineno, tuple(norm(e) for e in a0.elts)))
+        for k, ct in enumerate(ctors):
+            hi = ctors[k + 1].lineno if k + 1 < len(ctors) else 10 ** 9
+            mine = [c for c in steps if ct.lineno <= c.lineno < hi]
+            if len(ct.args) < 2 or not mine:
+                continue
+            npath += 1
+            g = norm(ct.args[1])
+            ket = bra = g
+            problems = []
+            ntrans = 0
+            after = {0: (ket, bra)}
+            tagged = []
+            for c in mine:
+                if c.func.attr == "add_transition":
+                    pair = c.args[0]
+                    side = c.args[1] if len(c.args) > 1 else None
+                    if not (isinstance(pair, ast.Tuple) and len(pair.elts) == 2) or side is None:
+                        raise AnalysisError("%s: add_transition call outside the vocabulary: %s" % (fname, norm(c)[:60]))
+                    to, frm = norm(pair.elts[0]), norm(pair.elts[1])
+                    sv = norm(side).replace("+", "")
+                    if sv == "1":
+                        if ket != frm:
+                            problems.append("'%s' starts from %s but the ket is %s" % (norm(c)[:40], frm, ket))
+                        ket = to
+                    elif sv == "-1":
+                        if bra != frm:
+                            problems.append("'%s' starts from %s but the bra is %s" % (norm(c)[:40], frm, bra))
+                        bra = to
+                    else:
+                        raise AnalysisError("%s: side %s" % (fname, sv))
+                    ntrans += 1
+                    after[ntrans] = (ket, bra)
+                    kw = {x.arg: x.value for x in c.keywords}
+                    if "interval" in kw:
+                        tagged.append((c, kw))
+                else:
+                    new, old = c.args[0], c.args[1]
+                    if not all(isinstance(x, ast.Tuple) and len(x.elts) == 2 for x in (new, old)):
+                        raise AnalysisError("%s: add_transfer call outside the vocabulary" % fname)
+                    o = (norm(old.elts[0]), norm(old.elts[1]))
+                    if o != (ket, bra):
+                        problems.append("transfer from |%s><%s| but the state is |%s><%s|" % (o + (ket, bra)))
+                    ket, bra = norm(new.elts[0]), norm(new.elts[1])
+                    after[ntrans] = (ket, bra)
+            if ket != bra:
+                problems.append("ends in the coherence |%s><%s|, not in a population" % (ket, bra))
+            for c, kw in tagged:
+                iv = kw["interval"]
+                if not isinstance(iv, ast.Constant):
+                    raise AnalysisError("%s: non-literal interval" % fname)
+                coh = after.get(iv.value)
+                if coh is None:
+                    problems.append("interval %s tagged but only %d interactions" % (iv.value, ntrans))
+                    continue
+                for role in ("width", "deph"):
+                    v = kw.get(role)
+                    if v is None:
+                        continue
+                    if not isinstance(v, ast.Name) or v.id not in lookups:
+                        raise AnalysisError("%s: %s=%s is not a looked-up transition quantity" % (fname, role, norm(v)))
+                    cands = [p for ln, p in lookups[v.id] if ct.lineno <= ln < hi] or [p for _, p in lookups[v.id]]
+                    pr = cands[-1]
+                    if set(pr) != set(coh):
+                        problems.append("interval %s: %s looked up for the transition (%s, %s) while the diagram is in "
+                                        "the coherence |%s><%s|" % ((iv.value, role) + pr + coh))
+            pname = [norm(x.value) for x in ct.keywords if x.arg == "pname"]
+            run.obligation(rid, "%s:%s" % (fname, (pname[0].strip("'\"") if pname else norm(ct.args[0]).strip("'\""))), not problems,
+                           key="diagram@%d" % k, message="; ".join(problems[:3]), loc=f.loc(ct),
+                           sample={"generator": fname, "interactions": ntrans, "tagged_intervals": len(tagged)})
+    if npath < 15:
+        raise AnalysisError("only %d pathway constructions tracked (15 confirmed)" % npath)
 
 
 def rule_A(run, prog):
